@@ -95,7 +95,7 @@ def version_gate(ctx):
                 else:
                     evs = [e for e in p.calls()]
                     i = evs.index(pr[0])
-                    if not any(e[6] == "std::io::Write::flush" or re.search(r"Write>::flush$", e[2]) for e in evs[i + 1:]):
+                    if pr[0][2] not in shared.flushing_printers(facts) and not any(e[6] == "std::io::Write::flush" or re.search(r"Write>::flush$", e[2]) for e in evs[i + 1:]):
                         bad_flush.append(v)
             else:
                 if not delivered or 505 in st:
